@@ -841,6 +841,13 @@ def rule_prune(trees):
             where = "%s:%s PrefixTree%d::%s" % (loc, fn["ln"], n, name)
             if need == "prune":
                 if n == 1:
+                    # arity 1 has no subtrees: removing a (possibly empty) PrefixTree0 must do nothing when it is empty
+                    if name == "remove_restriction":
+                        ps = [p["p"]["n"] for p in fn["params"] if kind(p) == "param" and kind(p["p"]) == "pid"]
+                        if guards_empty_arg(fn, ps[-1] if ps else "restriction"):
+                            res.ok()
+                        else:
+                            res.bad("S-PRUNE:remove_restriction:removes-for-empty", where, "PrefixTree1::remove_restriction removes the element even when the restriction to remove is empty")
                     continue
                 if has_prune(fn):
                     res.ok()
